@@ -322,6 +322,40 @@ glueh!(rs_glue_sq10, 14, Square10, 0, 3);
 glueh!(rs_glue_r16x48, 64, Rect16x48, 29, 49);
 
 
+// Scaled-down UNEQUAL blocks.  Only 144x144 has blocks of different lengths
+// (8 x 156 + 2 x 155 data codewords) and its loops are too long for a quick query.
+// encode_error takes every size-dependent number from SymbolSize::block_setup and
+// SymbolSize::num_data_codewords; with those two replaced by toy constants
+// (n data codewords over B blocks, n % B != 0, 5 error codewords per block) the
+// very same code of encode_error runs the unequal-block case on a few bytes,
+// EVERY data codeword symbolic.
+use crate::symbol_size::BlockSetup;
+macro_rules! gluetoy {
+    ($name:ident, $bs:ident, $ndc:ident, $n:expr, $b:expr) => {
+        pub(crate) fn $bs(_s: SymbolSize) -> BlockSetup {
+            BlockSetup { num_ecc_blocks: $b, num_ecc_per_block: 5, width: 10, height: 10, extra_vertical_alignments: 0, extra_horizontal_alignments: 0 }
+        }
+        pub(crate) fn $ndc(_s: &SymbolSize) -> usize {
+            $n
+        }
+        #[kani::proof]
+        #[kani::unwind(14)]
+        #[kani::stub(ecc_block, stub_ecc_block)]
+        #[kani::stub(crate::symbol_size::SymbolSize::block_setup, $bs)]
+        #[kani::stub(crate::symbol_size::SymbolSize::num_data_codewords, $ndc)]
+        fn $name() {
+            let data: [u8; $n] = kani::any();
+            check_glue::<$n>(&data, SymbolSize::Square10, 5 * $b, $b);
+        }
+    };
+}
+gluetoy!(rs_gluetoy_8_3, bs_toy_8_3, ndc_toy_8_3, 8, 3);
+gluetoy!(rs_gluetoy_7_3, bs_toy_7_3, ndc_toy_7_3, 7, 3);
+gluetoy!(rs_gluetoy_10_4, bs_toy_10_4, ndc_toy_10_4, 10, 4);
+gluetoy!(rs_gluetoy_9_3, bs_toy_9_3, ndc_toy_9_3, 9, 3);
+gluetoy!(rs_gluetoy_11_10, bs_toy_11_10, ndc_toy_11_10, 11, 10);
+
+
 // Light variant for the largest sizes: the stub does not walk the block, it
 // records the iterator's exact size hint (StepBy over a range / slice iterator
 // reports its length exactly) and the first element.
